@@ -59,7 +59,14 @@ SHAPES = {
     12: {"name": "pitems2", "arg": None, "env": "plan", "parts": [
         ("items", "Item", "id ... on Film { minutes owner { name title } } owner { name title }")]},
     13: {"name": "preq", "arg": None, "env": "plan", "parts": [("a", "A", "x"), ("b", "B", "y")]},
+    # ---- a mutation (state of the reviews subgraph of the Env), an @defer operation, an input-object argument
+    14: {"name": "madd", "arg": "str", "kind": "mutation", "mut": True, "parts": [
+        ('addReview(authorID: "1234", upc: "top-1", review: ARG)', "Review", "body author { id username } product { upc name }")]},
+    15: {"name": "tpdefer", "arg": "int", "defer": True, "parts": [
+        ("topProducts(first: ARG)", "Product", "upc name ... @defer { reviews { body author { username } } }")]},
+    16: {"name": "pecho", "arg": "nested", "env": "plan", "parts": []},
 }
+NO_PAIRS = {14, 15}  # not used for the gated / traced pairs (a mutation pair has no fixed reference; traced runs use Execute)
 SUBGRAPHS = {"": ["accounts", "products", "reviews"],
              "plan": ["catalog", "users", "bridge-one", "bridge-two", "titles", "wsvc", "zsvc", "target"]}
 HAS_DIR = {1, 2, 4, 5}
@@ -79,14 +86,20 @@ def concrete(a):
     defs = {}  # variable name -> definition text
     variables = collections.OrderedDict()
     arg_txt = ""
+    if sh["arg"] == "nested":
+        # the NESTED variable takes the third name of the scheme (scheme 2: "a", the first canonical name), the direct one the first
+        narg, nincl = nincl, narg
     if sh["arg"]:
-        typ = "Int" if sh["arg"] == "int" else "Which!"
+        typ = {"int": "Int", "enum": "Which!", "str": "String!", "nested": "String"}[sh["arg"]]
         if a["val"] == INVALID:
-            lit, jval = None, ("x" if sh["arg"] == "int" else "C")
+            lit, jval = None, {"int": "x", "enum": "C", "str": 5, "nested": 5}[sh["arg"]]
         elif sh["arg"] == "int":
             lit, jval = str(a["val"]), a["val"]
-        else:
+        elif sh["arg"] == "enum":
             lit, jval = "AB"[a["val"]], "AB"[a["val"]]
+        else:
+            jval = ("r%d" if sh["arg"] == "str" else "k%d") % a["val"]
+            lit = json.dumps(jval)
         if a["src"] == "lit":
             arg_txt = lit
         elif a["src"] == "dflt":
@@ -109,9 +122,21 @@ def concrete(a):
             defs[nincl] = "$%s: Boolean!" % nincl
             variables[nskip] = skipped
             variables[nincl] = included
+    if sh["arg"] == "nested":
+        defs[nincl] = "$%s: Int" % nincl
+        variables[nincl] = 7
     order = {0: [narg, nskip, nincl], 1: [nincl, nskip, narg], 2: sorted([narg, nskip, nincl])}[a["nm"]]
     vdefs = ", ".join(defs[x] for x in order if x in defs)
     frags, roots, fnames = [], [], {}
+    if sh["arg"] == "nested":
+        call = 'echo(filter: {kind: %s, min: 1, owner: {id: "7"}, tags: ["x", %s]}, n: $%s)' % (arg_txt, arg_txt, nincl)
+        if a["fr"] == 0:
+            roots.append(call)
+        elif a["fr"] == 1:
+            frags.append("fragment F1 on Query { %s }" % call)
+            roots.append("...F1")
+        else:
+            roots.append("... on Query { %s }" % call)
     for head, typ, inner in sh["parts"]:
         head = head.replace("ARG", arg_txt)
         inner = inner.replace("SKIP", skip_txt).replace("INCL", incl_txt).replace("  ", " ")
@@ -126,10 +151,13 @@ def concrete(a):
         else:
             roots.append("%s { ... on %s { %s } }" % (head, typ, inner))
     opname = {0: "", 1: "Q", 2: "Other"}[a["op"]]
+    kw = sh.get("kind", "query")
     if opname:
-        main = "query %s%s { %s }" % (opname, "(%s)" % vdefs if vdefs else "", " ".join(roots))
+        main = "%s %s%s { %s }" % (kw, opname, "(%s)" % vdefs if vdefs else "", " ".join(roots))
     elif vdefs:
-        main = "query (%s) { %s }" % (vdefs, " ".join(roots))
+        main = "%s (%s) { %s }" % (kw, vdefs, " ".join(roots))
+    elif kw != "query":
+        main = "%s { %s }" % (kw, " ".join(roots))
     else:
         main = "{ %s }" % " ".join(roots)
     docs = [main] + frags
@@ -141,8 +169,9 @@ def concrete(a):
     else:
         v = json.dumps(variables) if variables else ""
     out = {"q": " ".join(docs), "v": v, "op": opname, "a": a}
-    if sh.get("env"):
-        out["env"] = sh["env"]
+    for k in ("env", "mut", "defer"):
+        if sh.get(k):
+            out[k] = sh[k]
     return out
 
 
@@ -197,15 +226,27 @@ def split_traces(rows):
     return traces
 
 
+def class_keys(trace):
+    """per request of a trace: (Fresh class, mutations executed before it) - mirrors FreshIn / DbAfter of the spec"""
+    db, out = [], []
+    for e in trace[1:]:
+        out.append((fresh_class(e["a"]), tuple(db)))
+        if e["a"]["s"] == 14 and e["a"]["val"] != INVALID and e["g"] == 0:
+            db.append(e["a"]["val"])
+    return out
+
+
 def hist_suspect(trace, ref_first):
     """python-side triage only (the verdict is TLC's): which invariant would this trace break?"""
     out = []
-    for e in trace[1:]:
+    cks = class_keys(trace)
+    if trace[0].get("cap", 1024) < 1024 and any(e["len"] > trace[0]["cap"] for e in trace[1:]):
+        out.append(("T_Capacity", trace[1]))
+    for e, fc in zip(trace[1:], cks):
         if e["resp"] != e["ref"]:
             out.append(("T_Transparent", e))
         elif e["g"] == 0 and e["hit"] != 2 and (e["plan"] != e["fplan"] or e["bod"] != e["fbod"]):
             out.append(("T_PlanIndependent", e))
-        fc = fresh_class(e["a"])
         if ref_first is not None and fc in ref_first and ref_first[fc][0] != e["ref"]:
             out.append(("T_FreshFunctional", e))
     return out
@@ -240,8 +281,8 @@ def validate_hist(ctx, rows, details, tag, cfg="Trace_PlanCache.cfg"):
         # embeds the subgraph requests, so T_FreshFunctional is not part of their configuration)
         ref_first = {}
         for t in traces:
-            for e in t[1:]:
-                ref_first.setdefault(fresh_class(e["a"]), (e["ref"], t))
+            for e, fc in zip(t[1:], class_keys(t)):
+                ref_first.setdefault(fc, (e["ref"], t))
     clean, suspects = [], []
     for t in traces:
         s = hist_suspect(t, ref_first)
@@ -304,7 +345,7 @@ def validate_hist(ctx, rows, details, tag, cfg="Trace_PlanCache.cfg"):
         for t, s in items[:3]:
             inv, e = s[0]
             if inv == "T_FreshFunctional":
-                first = ref_first[fresh_class(e["a"])][1]
+                first = ref_first[class_keys(t)[t.index(e) - 1]][1]
                 if first is not t:
                     batch += list(first)
                     owner += [first] * len(first)
@@ -470,7 +511,7 @@ def generate_pairs(ctx):
     g2 = ctx.tlc_must_pass("resolve", "Gen_PlanCache", "Gen_PlanCache_2.cfg", timeout=600, deadlock=False, workers=2, tag="gen-hist-2")
     pairs = {}
     for b in g2.printed:
-        if b["hit"][1] == 1:
+        if b["hit"][1] == 1 and b["h"][0]["s"] not in NO_PAIRS:
             pairs[lib.sha(b["h"])] = b["h"]
     return [pairs[k] for k in sorted(pairs)]
 
@@ -583,7 +624,9 @@ def run(ctx):
         b = hs[k]
         # a seeded subset of the 16 option sets per history, always with the defaults and with everything on
         osets = sorted({0, 15} | set(rng.sample(all_o, 1 if quick else 6)))
-        hist_in.append({"id": "h%05d" % i, "osets": osets, "reqs": [concrete(a) for a in b["h"]], "model_hit": b["hit"]})
+        # one extra sequential run on an engine whose plan cache holds only 1-3 plans (LRU eviction inside the history)
+        capruns = [[rng.choice(osets), rng.choice([1, 2, 2, 3])]] if (quick or i % 2 == 0) else [[o, rng.choice([1, 2, 3])] for o in osets[:2]]
+        hist_in.append({"id": "h%05d" % i, "osets": osets, "capruns": capruns, "reqs": [concrete(a) for a in b["h"]], "model_hit": b["hit"]})
     # ---- 3. replay
     ip, ep, rp = ctx.path("hist.ndjson"), ctx.path("events.ndjson"), ctx.path("results.ndjson")
     lib.write_ndjson(ip, hist_in)
@@ -599,6 +642,31 @@ def run(ctx):
     raw_ne = sum(1 for r in rows if r["ev"] == "req" and r["resp"] == r["ref"] and not r["raweq"])
     ctx.log("replayed %d histories x option sets: %d requests, %d served from the plan cache, %d detail records" % (
         len(hist_in), nreq, nhit, len(details)))
+    # coverage of the grown alphabet: evictions actually observed, mutations / @defer / input objects in histories
+    n_evict = n_replan = n_capruns = 0
+    for t in split_traces(rows):
+        cap = t[0].get("cap", 1024)
+        if t[0]["mode"] != "seq" or cap >= 1024:
+            continue
+        n_capruns += 1
+        prev, seen_keys = 0, set()
+        for e in t[1:]:
+            k = (e["a"]["s"], e["a"]["op"], e["a"]["dir"])
+            if e["hit"] == 0:
+                if prev == cap:
+                    n_evict += 1
+                if k in seen_keys:
+                    n_replan += 1   # planned again after its plan had been evicted
+                seen_keys.add(k)
+            if e["hit"] != 2:
+                prev = e["len"]
+    n_mut = sum(1 for h in hist_in if any(r.get("mut") for r in h["reqs"]))
+    n_mut_dep = sum(1 for h in hist_in if any(r.get("mut") and any(q["a"]["s"] in (1, 2, 5, 8, 15) for q in h["reqs"][i + 1:])
+                                               for i, r in enumerate(h["reqs"])))
+    n_defer = sum(1 for h in hist_in if any(r.get("defer") for r in h["reqs"]))
+    n_echo = sum(1 for h in hist_in if any(r["a"]["s"] == 16 for r in h["reqs"]))
+    ctx.log("capacity runs: %d (evictions %d, re-planned after eviction %d); histories with a mutation %d (a later query reads its effect: %d), "
+            "with @defer %d, with an input-object argument %d" % (n_capruns, n_evict, n_replan, n_mut, n_mut_dep, n_defer, n_echo))
     # ---- 4. validate with TLC
     acc_h, mism = validate_hist(ctx, rows, details, "main")
     ctx.log("TLC accepted %d recorded histories; model hit/miss prediction mismatches: %d" % (acc_h, mism))
@@ -698,17 +766,20 @@ def run(ctx):
         "forced_interleavings": {"pairs": len(pairs), "runs": len(gated_in), "accepted_by_tlc": acc_g, "unrealised": len(unreal)},
         "slow_subgraph_runs": {"runs": len(slow_in), "with_parked_exchange": nheld, "accepted_by_tlc": acc_s, "unrealised": len(sunreal)},
         "requests_served_from_plan_cache": nhit,
+        "small_capacity_runs": {"runs": n_capruns, "capacities": [1, 2, 3], "evictions_observed": n_evict, "replanned_after_eviction": n_replan},
+        "histories_with": {"mutation": n_mut, "mutation_then_dependent_query": n_mut_dep, "defer": n_defer, "input_object_argument": n_echo},
         "model_hit_mismatches": mism,
         "determinism": {"requests": len(det_in), "request_x_option_set": sum(len(r["osets"]) for r in det_in), "fresh_engines_per_process": nfresh, "processes": 3,
                         "plannings": len(det_rows), "accepted_by_tlc": acc_d, "inconsistent_groups": nsus},
-        "invariants_on_traces": ["T_Transparent", "T_FreshFunctional", "T_PlanIndependent", "T_Model",
+        "invariants_on_traces": ["T_Transparent", "T_FreshFunctional", "T_PlanIndependent", "T_Model", "T_Capacity",
                                  "PlanDeterministic", "RequestsDeterministic", "ResponseIndependentOfOptions"],
         "samples": [{"history": [e.get("a") for e in t[1:]], "oset": t[0]["o"], "mode": t[0]["mode"],
                      "hits": [e["hit"] for e in t[1:]]} for t in sample_tr] + [{"request": det_in[0]["q"], "variables": det_in[0]["v"]}],
         "exhaustive": False,
     })
     ctx.assumptions += [
-        "operations are instances of a 13-shape catalog: 9 over the federationtesting supergraph, 4 over the hand-written planfed supergraph (queries only; no mutations, subscriptions, @defer)",
+        "operations are instances of a 16-shape catalog: 11 over the federationtesting supergraph (incl. the addReview mutation and one @defer operation), 5 over the hand-written planfed supergraph (incl. an input-object argument); no subscriptions",
+        "histories with a mutation are not run from two goroutines; references replay the same prefix of mutations on a fresh engine; @defer payloads are merged into one document before comparison",
         "subgraphs are the in-process example services with static data; responses are compared after key sorting",
         "the printed plan is a reflective dump of plan.Plan without source positions (resolve.Position differs per request text and is never rendered) and without data source instances",
         "\"the same normalized operation\" is decided by re-running the engine's own normalization pipeline in the driver",
